@@ -25,6 +25,7 @@ type c10Case struct {
 	Order *c10Order     `json:"order,omitempty"`
 	Snap  *c10Snap      `json:"snap,omitempty"`
 	Batch *c10BatchCase `json:"batch,omitempty"`
+	Conc  *c10ConcCase  `json:"conc,omitempty"`
 	// raw bytes for decode-only (malformed) cases
 	Raw string `json:"raw,omitempty"`
 }
@@ -368,6 +369,10 @@ func (c *c10Run) txMalformed() {
 // ---------------------------------------------------------------- runner
 
 func runC10(r *Run) {
+	if r.Tier == c10ConcTier {
+		runC10ConcChild(r)
+		return
+	}
 	r.Rule = "random well-formed accounts (all 10 states, versions 0/1/2/other, LatestTx iff the state stores it; " +
 		"transactions with 1-255 inputs, legacy and witness form, script lengths across the var-int boundaries) " +
 		"serialised by the real code and decoded by the model (byte-exact re-encoding), directly and through a " +
@@ -404,6 +409,10 @@ func runC10(r *Run) {
 			if cs.Snap != nil {
 				c.snapDirect(cs.Snap, "fixed")
 			}
+		case "conc":
+			if cs.Conc != nil {
+				c.concParent(cs.Conc.Seed)
+			}
 		case "batch":
 			if cs.Batch != nil {
 				c.batchDB(cs.Batch)
@@ -425,6 +434,15 @@ func runC10(r *Run) {
 	}
 	if r.ReplayFile != "" {
 		return
+	}
+
+	// readers concurrent with writers on other objects (child process, ~3 s each)
+	nConc := 1
+	if r.Tier == "thorough" || r.Search {
+		nConc = 3
+	}
+	for i := 0; i < nConc; i++ {
+		c.concParent(r.Seed*1000 + int64(i))
 	}
 
 	for i := 0; i < r.N; {
